@@ -1,6 +1,6 @@
 (* C06 — A dropped connection can be resumed without loss; bye and expiry are final. *)
 From Coq Require Import List NArith Bool.
-From Verif Require Import model.Hub proofs.Hub_easy proofs.Hub_route proofs.Hub_wf proofs.Hub_corollaries.
+From Verif Require Import model.Hub proofs.Hub_easy proofs.Hub_route proofs.Hub_wf proofs.Hub_corollaries proofs.Hub_pending.
 Import ListNotations.
 Open Scope N_scope.
 
@@ -16,12 +16,13 @@ Theorem C06_resume_flushes_queue : forall h c cn n s,
 Proof. exact resume_flushes_queue. Qed.
 
 (* While disconnected, a message addressed to the session is appended to its queue (nothing is
-   written anywhere, nothing is dropped). *)
+   written anywhere, nothing is dropped; enqueue keeps a single chat-refresh notice: "repeated
+   chat-refresh notices may be merged into one"). *)
 Theorem C06_queued_while_disconnected : forall h x t m,
   get_sess h x = Some t -> t.(s_conn) = None ->
   (match m with SJoin _ | SLeave _ => False | _ => True end) ->
   snd (deliver_to_session h x m) = [] /\
-  exists t', get_sess (fst (deliver_to_session h x m)) x = Some t' /\ t'.(s_pending) = t.(s_pending) ++ [m].
+  exists t', get_sess (fst (deliver_to_session h x m)) x = Some t' /\ t'.(s_pending) = enqueue t.(s_pending) m.
 Proof. exact deliver_queued. Qed.
 
 (* The public session id (or anything but a private id) never works as a resume id. *)
@@ -50,8 +51,168 @@ Proof. exact resume_of_ended_session_refused. Qed.
    the window between SetClient and the flush cannot be forced on the real code and is not modelled
    (partial). *)
 
+(* ---------------------------------------------------------------- for every history (proofs/Hub_pending.v) *)
+(* stepx false / runx false are step / run, stepx true / runx true the quiescent qstep / qrun.
+   Good h = WF h /\ Inv h holds in every reachable state of either semantics; Inv says that session
+   ids are never handed out twice and that a session with a connection has nothing queued. *)
+Theorem C06_reachable_good : forall h, reachable h -> Good h.
+Proof. exact reachable_good. Qed.
+Theorem C06_reachable_q_good : forall h, reachable_q h -> Good h.
+Proof. exact reachable_q_good. Qed.
+
+(* 1. If a session has no connection after a step, what was in its queue before the step is still
+   there in the same order and whatever the step queued comes after it (enqueue appends, except that a
+   chat-refresh notice is dropped when one is queued already). *)
+Theorem C06_queue_only_grows : forall q h o sid s s',
+  Inv h -> get_sess h sid = Some s -> get_sess (fst (stepx q h o)) sid = Some s' -> s_conn s' = None ->
+  exists l, s_pending s' = s_pending s ++ l.
+Proof. exact queue_kept_stepx. Qed.
+(* ... and a session with a connection has an empty queue *)
+Theorem C06_connected_queue_empty : forall h sid s c,
+  Inv h -> get_sess h sid = Some s -> s_conn s = Some c -> s_pending s = [].
+Proof. exact connected_queue_empty. Qed.
+(* Over a segment of any length during which the session has no connection: the queue at the end is
+   the queue at the start followed by what each step appended, in step order. *)
+Theorem C06_queue_over_segment : forall q sid ops h,
+  Inv h -> live h sid -> stays_disc q sid h ops ->
+  pend (runx q h ops) sid = pend h sid ++ appended q sid h ops.
+Proof. exact queue_over_segment. Qed.
+
+(* 2. What is appended is what was sent: no connection, nothing written, the message queued ... *)
+Theorem C06_send_to_disconnected : forall h sid m t,
+  get_sess h (target h sid) = Some t -> s_conn t = None ->
+  snd (send_session h sid m) = [] /\
+  exists t', get_sess (fst (send_session h sid m)) (target h sid) = Some t' /\ s_conn t' = None /\
+             s_pending t' = match filtered t m with Some mm => enqueue (s_pending t) mm | None => s_pending t end.
+Proof. exact send_to_disconnected. Qed.
+(* ... a connection: exactly one copy written to it, nothing queued. *)
+Theorem C06_send_to_connected : forall h sid m t c,
+  get_sess h (target h sid) = Some t -> s_conn t = Some c -> never_closing m = true ->
+  snd (send_session h sid m) = match filtered t m with Some mm => [ToConn c mm] | None => [] end /\
+  exists t', get_sess (fst (send_session h sid m)) (target h sid) = Some t' /\ s_conn t' = Some c /\
+             s_pending t' = s_pending t.
+Proof. exact send_to_connected. Qed.
+
+(* 3. The connection is cut, the session has no connection after each of the following ops, then it
+   resumes: the answer is the same session id followed by exactly what was appended to the queue
+   since the cut, in order, once; the queue is empty afterwards, the session keeps its room, is
+   attached to the new connection and no longer expires. *)
+Theorem C06_drop_then_resume : forall q h0 c0 cn0 sid ops c cn,
+  Good h0 -> aget (h_conns h0) c0 = Some cn0 -> c_sess cn0 = Some sid ->
+  stays_disc q sid h0 (ODrop c0 :: ops) ->
+  let hj := runx q h0 (ODrop c0 :: ops) in
+  aget (h_conns hj) c = Some cn -> c_sess cn = None -> throttled hj (c_addr cn) ACT_RESUME = false ->
+  (forall s, get_sess hj sid = Some s -> is_virtual (s_kind s) = false) ->
+  exists s, get_sess hj sid = Some s /\ s_conn s = None /\
+  let '(h', outs) := step hj (OHello c (HResume (IdPriv sid))) in
+  outs = ToConn c (SHello sid (sess_userid hj sid s)) :: map (ToConn c) (appended q sid h0 (ODrop c0 :: ops)) /\
+  (exists s', get_sess h' sid = Some s' /\ s_conn s' = Some c /\ s_pending s' = [] /\ s_room s' = s_room s) /\
+  nmem sid (h_expired h') = false.
+Proof. exact drop_then_resume. Qed.
+
+(* 4. After the bye of the session's connection, for EVERY continuation: the session is not live, is
+   referenced nowhere (member of no room), and its resume id is refused (no_such_session, or
+   too_many_requests for a throttled address: see resume_refusal_code_refuted) and creates nothing. *)
+Theorem C06_bye_is_final : forall q h c cn sid,
+  Good h -> aget (h_conns h) c = Some cn -> c_sess cn = Some sid ->
+  forall ops', let h2 := runx q (fst (stepx q h (OBye c))) ops' in
+    get_sess h2 sid = None /\ unreferenced h2 sid /\
+    forall c' cn', aget (h_conns h2) c' = Some cn' -> c_sess cn' = None ->
+      let '(h3, outs) := step h2 (OHello c' (HResume (IdPriv sid))) in
+      outs = [ToConn c' (SError (if throttled h2 cn'.(c_addr) ACT_RESUME then E_too_many_requests else E_no_such_session))] /\
+      h_sessions h3 = h_sessions h2.
+Proof. exact bye_is_final. Qed.
+(* The same after the tick that ends the expiry window of a session whose connection was cut. *)
+Theorem C06_expiry_is_final : forall q h sid secs,
+  Good h -> In sid (h_expired h) -> 30 < secs ->
+  forall ops', let h2 := runx q (fst (stepx q h (OTick secs))) ops' in
+    get_sess h2 sid = None /\ unreferenced h2 sid /\
+    forall c' cn', aget (h_conns h2) c' = Some cn' -> c_sess cn' = None ->
+      let '(h3, outs) := step h2 (OHello c' (HResume (IdPriv sid))) in
+      outs = [ToConn c' (SError (if throttled h2 cn'.(c_addr) ACT_RESUME then E_too_many_requests else E_no_such_session))] /\
+      h_sessions h3 = h_sessions h2.
+Proof. exact expiry_is_final. Qed.
+Theorem C06_cut_marks_for_expiry : forall h c cn sid,
+  WF h -> aget (h_conns h) c = Some cn -> c_sess cn = Some sid ->
+  In sid (h_expired (fst (step h (ODrop c)))) /\ disc (fst (step h (ODrop c))) sid.
+Proof. exact drop_marks_expired. Qed.
+
+(* Nothing above is vacuous: two sessions, the first one's connection is cut, the second sends it two
+   messages, a new connection resumes.  Every hypothesis of C06_drop_then_resume holds and the
+   resume writes the hello and the two messages. *)
+Definition ex_pre : list op := [OConnect 1 100; OHello 1 (HV1 0 7 false); OConnect 2 101; OHello 2 (HV1 0 8 false)].
+Definition ex_seg : list op := [OMsg 2 (RSession (IdPub 1)) 41; OMsg 2 (RSession (IdPub 1)) 42; OConnect 3 102].
+Example C06_example_cut_two_messages_resume :
+  let h0 := run (init [0] false) ex_pre in
+  let hj := runx false h0 (ODrop 1 :: ex_seg) in
+  reachable h0 /\
+  (exists cn0, aget (h_conns h0) 1 = Some cn0 /\ c_sess cn0 = Some 1) /\
+  stays_disc false 1 h0 (ODrop 1 :: ex_seg) /\
+  (exists cn, aget (h_conns hj) 3 = Some cn /\ c_sess cn = None /\ throttled hj (c_addr cn) ACT_RESUME = false) /\
+  (forall s, get_sess hj 1 = Some s -> is_virtual (s_kind s) = false) /\
+  appended false 1 h0 (ODrop 1 :: ex_seg) = [SMsg 0 0 2 8 None 41; SMsg 0 0 2 8 None 42] /\
+  snd (step hj (OHello 3 (HResume (IdPriv 1)))) =
+    [ToConn 3 (SHello 1 7); ToConn 3 (SMsg 0 0 2 8 None 41); ToConn 3 (SMsg 0 0 2 8 None 42)].
+Proof.
+  cbv zeta. split; [exists [0], false, ex_pre; reflexivity|].
+  split; [eexists; split; [vm_compute; reflexivity|reflexivity]|].
+  split.
+  { unfold ex_seg. cbn [stays_disc].
+    repeat split; (eexists; split; [vm_compute; reflexivity|reflexivity]). }
+  split; [eexists; split; [vm_compute; reflexivity|split; [reflexivity|vm_compute; reflexivity]]|].
+  split; [intros s Hs; vm_compute in Hs; injection Hs as <-; reflexivity|].
+  split; vm_compute; reflexivity.
+Qed.
+(* and for finality: a session with a connection (bye), a session marked for expiry (tick) *)
+Example C06_example_final :
+  let h := run (init [0] false) [OConnect 1 100; OHello 1 (HV1 0 7 false)] in
+  reachable h /\ (exists cn, aget (h_conns h) 1 = Some cn /\ c_sess cn = Some 1) /\
+  In 1 (h_expired (fst (step h (ODrop 1)))).
+Proof.
+  cbv zeta. split; [exists [0], false, [OConnect 1 100; OHello 1 (HV1 0 7 false)]; reflexivity|].
+  split; [eexists; split; [vm_compute; reflexivity|reflexivity]|]. vm_compute. now left.
+Qed.
+
+(* The notice that the session's room was deleted while it had no connection is queued like any other
+   message and delivered by the resume (the code as found dropped it: repaired, see Hub_pending.v). *)
+Theorem C06_room_deleted_while_disconnected_repaired :
+  snd (qstep (qrun (init [0] false) del_pre) (OApi 0 0 5 ADelete)) = [ToConn 1 (SRoom 0)] /\
+  option_map s_room (get_sess (qrun (init [0] false) (del_pre ++ [ODrop 1])) 1) = Some (Some (0, 5)) /\
+  pend (qrun (init [0] false) del_cut) 1 = [SRoom 0] /\
+  snd (qstep (qrun (init [0] false) del_cut) (OHello 2 (HResume (IdPriv 1)))) = [ToConn 2 (SHello 1 7); ToConn 2 (SRoom 0)] /\
+  option_map s_room (get_sess (fst (qstep (qrun (init [0] false) del_cut) (OHello 2 (HResume (IdPriv 1))))) 1) = Some None.
+Proof. exact room_deleted_while_disconnected_repaired. Qed.
+
+(* "repeated chat-refresh notices may be merged into one": what is queued for a disconnected session is
+   appended, except a chat-refresh notice while one is already in the queue; so the queue holds at most
+   one more than it did, every other message is kept in order. *)
+Theorem C06_enqueue_appends : forall q m, is_chat_refresh m = false -> enqueue q m = q ++ [m].
+Proof. exact enqueue_plain. Qed.
+Theorem C06_enqueue_first_chat_refresh : forall q m, existsb is_chat_refresh q = false -> enqueue q m = q ++ [m].
+Proof. exact enqueue_first. Qed.
+Theorem C06_enqueue_merges_repeated_chat_refresh : forall q m,
+  is_chat_refresh m = true -> existsb is_chat_refresh q = true -> enqueue q m = q.
+Proof. exact enqueue_merged. Qed.
+
+Print Assumptions C06_enqueue_appends.
+Print Assumptions C06_enqueue_first_chat_refresh.
+Print Assumptions C06_enqueue_merges_repeated_chat_refresh.
+Print Assumptions C06_room_deleted_while_disconnected_repaired.
 Print Assumptions C06_resume_flushes_queue.
 Print Assumptions C06_queued_while_disconnected.
 Print Assumptions C06_resume_needs_private_id.
 Print Assumptions C06_close_is_final.
 Print Assumptions C06_resume_of_ended_session_refused.
+Print Assumptions C06_reachable_good.
+Print Assumptions C06_reachable_q_good.
+Print Assumptions C06_queue_only_grows.
+Print Assumptions C06_connected_queue_empty.
+Print Assumptions C06_queue_over_segment.
+Print Assumptions C06_send_to_disconnected.
+Print Assumptions C06_send_to_connected.
+Print Assumptions C06_drop_then_resume.
+Print Assumptions C06_bye_is_final.
+Print Assumptions C06_expiry_is_final.
+Print Assumptions C06_cut_marks_for_expiry.
+Print Assumptions C06_example_cut_two_messages_resume.
+Print Assumptions C06_example_final.
